@@ -142,6 +142,48 @@ def message(spec):
     raise ValueError(kind)
 
 
+# ------------------------------------------------------------------ arguments that share a container (sent as `reference`)
+def shared_value(variant):
+    """-> the argument of an echo call in which one container occurs more than once"""
+    if variant == "twice":
+        l = ["list", 1, 2]
+        return [l, l]
+    if variant == "dictalias":
+        l = [1, 2]
+        return [l, {"k": l}]
+    if variant == "nested":
+        l = [7]
+        t = ("t", l)
+        return [[l], t, t, l]
+    if variant == "mixed":
+        t = ("tuple", 5, 6)
+        l = ["list", 1, 2]
+        st = set([3, 4])
+        return [t, l, st, t, l]
+    raise ValueError(variant)
+
+
+def shared_ok(variant, got):
+    """equal to what was sent AND the sharing is preserved"""
+    try:
+        if got != shared_value(variant):
+            return False
+        if variant == "twice":
+            return got[0] is got[1]
+        if variant == "dictalias":
+            return got[0] is got[1]["k"]
+        if variant == "nested":
+            return got[1] is got[2] and got[0][0] is got[3] and got[1][1] is got[3]
+        if variant == "mixed":
+            return got[0] is got[3] and got[1] is got[4]
+    except Exception:
+        return False
+    return False
+
+
+SHARED_VARIANTS = ["twice", "dictalias", "nested", "mixed"]
+
+
 # ------------------------------------------------------------------ one batch
 def setup(opts):
     tb, cb = E.broker_pair()
@@ -167,6 +209,8 @@ def issue(rrs, spec):
         return rrs["plain"].callRemote("echo", spec["v"])
     if k == "ok-add":
         return rrs["plain"].callRemote("add", spec["v"], b=1)
+    if k == "shared":               # fault-free, but one container occurs several times in the argument
+        return rrs["plain"].callRemote("echo", shared_value(spec["variant"]))
     if k == "unserializable":       # unsendable object at nesting depth d inside the argument
         return rrs["plain"].callRemote("echo", nest(spec["depth"], Unsendable(), spec.get("sibling")))
     if k == "slicer-raises":        # Violation raised from next() of a slicer at depth d, after n tokens
@@ -190,6 +234,8 @@ def issue(rrs, spec):
     if k == "unknown-method":
         return rrs["plain"].callRemote("nosuchmethod", 1)
     if k == "unknown-method-typed":
+        if spec.get("nested"):      # rejected by the far end while OPENs of its arguments are still to come
+            return rrs["typed"].callRemote("nosuchmethod", ["one list", ["nested"]], {"k": ("v", [1, 2])})
         return rrs["typed"].callRemote("nosuchmethod", 1)
     if k == "unknown-object":
         return rrs["bogus"].callRemote("echo", 1)
@@ -288,6 +334,7 @@ def _run_batch(specs, opts):
     later = []
     try:
         rrs["plain"].callRemote("add", 40, b=2).addBoth(later.append)
+        rrs["plain"].callRemote("echo", shared_value(opts.get("later_shared", "mixed"))).addBoth(later.append)
         E.turn()
     except Exception as e:
         escaped = "later call raised %r" % (e,)
@@ -295,6 +342,7 @@ def _run_batch(specs, opts):
                fired=fired, later=[describe(r, True) for r in later],
                disconnected=(bool(cb.disconnected), bool(tb.disconnected)),
                caller_bytes=tap_c.bytes(), callee_bytes=tap_t.bytes(), open0=open0, topen0=topen0,
+               counters=dict(caller_sent=cb.openCount, callee_seen=tb.objectCounter, callee_sent=tb.openCount, caller_seen=cb.objectCounter),
                executed=list(EXECUTED), waiting=len(cb.waitingForAnswers), active_local=len(tb.activeLocalCalls), escaped=escaped,
                logged=len(E.logged_errors) - n_err0)
     return out
